@@ -157,7 +157,7 @@ def _annotated(chk, thorough, data):
   npal = len(cr.PALETTES)
   nk = len(cr.ANNOTATE_KINDS)
   for i, sig in enumerate(sigs):
-    dvs = cr.DEFAULT_VARIANTS if thorough else (cr.DEFAULT_VARIANTS[i % 3],)
+    dvs = cr.DEFAULT_VARIANTS if thorough else (cr.DEFAULT_VARIANTS[i % len(cr.DEFAULT_VARIANTS)],)
     for dv in dvs:
       for t, (p, mode, want) in enumerate(annot[i]):
         akinds = (cr.ANNOTATE_KINDS[(i + t + cr.DEFAULT_VARIANTS.index(dv)) % nk],)
@@ -246,7 +246,8 @@ def _lifecycle(chk, thorough):
       st = beh[d.step].state
       observed = str(d.observed).split(':')[0] if isinstance(d.observed, str) else 'different-value'
       _report(chk, {'mode': 'lifecycle', 'clause': d.clause, 'action': st['act'][0], 'expected': st['res']['err'],
-                     'observed': observed, 'after_json': bool(d.after_json)},
+                     'observed': observed, 'after_json': bool(d.after_json),
+                     **({'diff': d.diff} if d.diff else {})},
                     {'function': cr.generated(beh[0].state['sig'], pal.dv).src.splitlines()[0],
                      'values': pal.name, 'flavour': 'pg.functor' if k % 2 == 0 else 'pg.symbolize',
                      'history': acts[:d.step], 'expected': d.expected, 'observed': d.observed})
@@ -255,7 +256,8 @@ def _lifecycle(chk, thorough):
     chk.require(chk.counters.get('lifecycle-values:' + q.name, 0) > 0, f'vacuous: no behaviour with values {q.name}')
   for need in ('Construct:ok', 'SetAttr', 'DelAttr', 'Rebind', 'Clone', 'JsonRT', 'Call:ok', 'Call:rebound',
                'Call:multiple', 'Call:toomany', 'Call:unexpected', 'Call:missing',
-               'Construct-mode:distinct', 'Construct-mode:equal', 'Construct-mode:boxed',
+               'Construct-mode:distinct', 'Construct-mode:equal', 'Construct-mode:boxed', 'Construct-mode:asdefault',
+               'Rebind:equal-to-default',
                'Call-mode:distinct', 'Call-mode:equal', 'Call-mode:asbound',
                'Rebind-entries:2', 'Rebind-entries:3', 'Rebind:nested-before-top'):
     chk.require(hits.get(need, 0) > 0, f'vacuous: no replayed step {need}')
